@@ -15,11 +15,15 @@
        and conversely (Proofs/WorldInv2.v) every pending expiry handle that is not cancelled belongs to the entry
        CURRENTLY stored under its key: live expiry timers and stored finite-TTL entries correspond one to one, the timer
        of a refreshed / stopped / removed entry is never live and so can never remove a successor;
+   (C') timing (Proofs/WorldTime.v), for every run: refresh with a finite TTL arms exactly one timer at now + ttl seconds
+       (the infinite TTL arms none); the clock never passes a live deadline; every timer callback the loop runs was armed
+       for EXACTLY the current instant - so the expiry of an untouched entry is reported exactly at t0 + ttl, never
+       earlier, never later (the model has no lateness; real-time lateness is outside it);
    (D) NOT proved: that the timed notification history of Model/Stack.v equals (B) for every scenario (the end-to-end
        refinement C09_model_refines_spec).  Checked on every run by
        comparing complete model traces with the implementation and judging the implementation traces with (B). *)
 From PS Require Import Lib.Base Generated.Consts Model.SdTypes Model.Config Model.Session Model.StackTypes
-  Model.Stack Model.StackIO Spec.TraceSpec Spec.StoreSpec Proofs.StoreSpecProofs Proofs.TimedStoreProofs Proofs.KeyEquiv Proofs.WorldInv Proofs.WorldInv2.
+  Model.Stack Model.StackIO Spec.TraceSpec Spec.StoreSpec Proofs.StoreSpecProofs Proofs.TimedStoreProofs Proofs.KeyEquiv Proofs.WorldInv Proofs.WorldInv2 Proofs.WorldTime.
 
 Section A.
   Context {K : Type} (keqb : K -> K -> bool) (keqb_eq : forall a b, keqb a b = true <-> a = b).
@@ -91,7 +95,28 @@ Theorem C09_expiry_of_a_live_timer_removes_exactly_its_entry : forall w tid st a
   ready w = (Some tid, HExpired st a k) :: r -> memN tid (cancelled w) = false -> G2 (store_expired st a k (set_ready r w)).
 Proof. exact G2_expired_popped. Qed.
 
+Theorem C09_refresh_arms_exactly_the_deadline : forall st ttl a k w, (ttl =? TTL_FOREVER) = false ->
+  timers (fst (refresh_tail st ttl a k w)) = timers w ++ [(now w + ttl * usec_per_sec, next_id w, HExpired st a k)].
+Proof. exact refresh_arms_deadline. Qed.
+Theorem C09_infinite_ttl_arms_nothing : forall st a k w, timers (fst (refresh_tail st TTL_FOREVER a k w)) = timers w.
+Proof. exact refresh_forever_arms_nothing. Qed.
+Theorem C09_timer_callbacks_run_exactly_at_their_deadline : forall arrivals rv w, Tinv w ->
+  let w1 := fold_left (fun acc h => call_soon h acc) arrivals w in
+  (exists due', ready (iter_pre arrivals rv w) = ready w1 ++ map (fun t : N * N * handle => (Some (snd (fst t)), snd t)) due'
+                /\ forall t, In t due' -> In t (timers w) /\ fst (fst t) = now w)
+  /\ Tinv (iteration arrivals rv w) /\ now (iteration arrivals rv w) = now w.
+Proof. exact iteration_on_time. Qed.
+Theorem C09_no_live_timer_is_ever_overdue : forall sc, Tinv (fst (run_scenario sc)).
+Proof. exact reachable_on_time. Qed.
+Theorem C09_callbacks_never_move_the_clock_nor_arm_the_past : forall h w, ext w (exec h w).
+Proof. exact E_exec. Qed.
+
 Print Assumptions C09_timer_invariant.
+Print Assumptions C09_refresh_arms_exactly_the_deadline.
+Print Assumptions C09_infinite_ttl_arms_nothing.
+Print Assumptions C09_timer_callbacks_run_exactly_at_their_deadline.
+Print Assumptions C09_no_live_timer_is_ever_overdue.
+Print Assumptions C09_callbacks_never_move_the_clock_nor_arm_the_past.
 Print Assumptions C09_both_directions_in_every_reachable_state.
 Print Assumptions C09_both_directions_kept_by_every_loop_step.
 Print Assumptions C09_live_timer_belongs_to_the_stored_entry.
